@@ -74,6 +74,22 @@ Theorem latest_unexpired_cache : forall interval t0 ds0 its g w key ds r w',
 Proof. exact cache_get_c. Qed.
 Print Assumptions latest_unexpired_cache.
 
+(* ---- nothing is lost early: an answer that was stored, not flushed, not evicted and has not
+   expired yet is still held (LRU: on a node carrying exactly it; Cache: cleaning drops expired
+   entries only) *)
+Theorem lru_holds_every_live_answer : forall m t0 its g w key v, mono its -> lru_reach m t0 its g w ->
+  fst g key = Some v -> snd w < a_exp v ->
+  exists i nd, dget (l_dict (fst w)) key = Some i /\ sget (l_store (fst w)) i = Some nd /\
+               n_key nd = Some key /\ n_val nd = Some v.
+Proof. exact lru_live_present_l. Qed.
+Print Assumptions lru_holds_every_live_answer.
+
+Theorem cache_holds_every_live_answer : forall interval t0 ds0 its g w key v,
+  mono its -> Forall cache_item its -> cache_reach interval t0 ds0 its g w ->
+  fst g key = Some v -> snd w < a_exp v -> dget (c_data (fst w)) key = Some v.
+Proof. exact cache_live_present_c. Qed.
+Print Assumptions cache_holds_every_live_answer.
+
 (* ---- what "not flushed or evicted" rests on: a key leaves the dict only by flush, by a lookup
    of that very key (which then found it expired and returned None), or during put/set_max_size;
    it enters only by put *)
